@@ -375,3 +375,58 @@ func c06ModularUpload(addr string, cid int, seed uint64) (viol [][2]string, inco
 	next(0x8001, []byte{0x01, 0xf4, 0x00, 0x02, 0x00}, "the heartbeat after it")
 	return
 }
+
+// c06QuietSpell: real time without traffic. A terminal connects and waits 10.6 s before its first message (variant: sends a
+// heartbeat at once, then is silent for 10.6 s); the request that ends the silence is answered like any other — reply sent,
+// platform serial next in line, callbacks as prescribed. Deadlines a server keeps on its socket must not count idle time.
+func c06QuietSpell(addr string, cid int, quiet time.Duration) (viol [][2]string, incon bool, frames int) {
+	bad := func(sig, detail string) { viol = append(viol, [2]string{sig, detail}) }
+	t, err := svc.Dial(addr, cid%2 == 1, fmt.Sprintf("%d", 6900000+cid))
+	if err != nil {
+		return nil, true, 0
+	}
+	defer t.Close()
+	expect := func(id, serial uint16, body []byte, what string) bool {
+		exp := ref.ExpectedReply(id, serial, body, t.V2019, t.Phone)
+		rx, ok, to := t.Next(20 * time.Second)
+		switch {
+		case to:
+			// silence: is the server alive for others? then this terminal is owed a reply
+			if serverAnswersFreshConnection(addr) {
+				bad("reply|an owed reply never came although the server answers fresh connections at once", fmt.Sprintf("conn %d: %s", cid, what))
+			} else {
+				incon = true
+			}
+			return false
+		case !ok || rx.F == nil:
+			bad("reply|connection closed by the server during a valid conversation", fmt.Sprintf("conn %d: %s", cid, what))
+			return false
+		case int(rx.F.Serial) != frames:
+			bad("serial|platform serial numbers not consecutive from 0 (mod 65536)", fmt.Sprintf("conn %d: %s carries serial %d, want %d", cid, what, rx.F.Serial, frames))
+			return false
+		case exp == nil || rx.F.ID != exp.ID || (!exp.SkipBody && !bytes.Equal(rx.F.Body, exp.Body)):
+			bad("reply|wrong reply type|quiet spell", fmt.Sprintf("conn %d: %s: got %04x %x", cid, what, rx.F.ID, rx.F.Body))
+			return false
+		}
+		frames++
+		return true
+	}
+	if cid%2 == 0 {
+		t.Write(t.Frame(0x0002, 1, nil))
+		if !expect(0x0002, 1, nil, "the heartbeat before the quiet spell") {
+			return
+		}
+	}
+	time.Sleep(quiet)
+	loc := make([]byte, 28)
+	for i := 22; i < 28; i++ {
+		loc[i] = 0x11
+	}
+	t.Write(t.Frame(0x0200, 2, loc))
+	if !expect(0x0200, 2, loc, fmt.Sprintf("the location report after %v of silence", quiet)) {
+		return
+	}
+	t.Write(t.Frame(0x0002, 3, nil))
+	expect(0x0002, 3, nil, "the heartbeat after it")
+	return
+}
